@@ -371,3 +371,7 @@ package matcher
 //@   ensures frame: c.Args == old(c.Args) && c.Opts == old(c.Opts) && c.ExcludedOpts == old(c.ExcludedOpts) &&
 //@       frameMap(c.Args, c.Opts) && frameMap(c.ExcludedOpts) && frame(c.RejectOptions)
 //@   ensures keys: forall k *container.Container :: ((k in c.Args) || (k in c.Opts)) ==> k != nil
+
+// IsShortcut: a type test
+//@ func IsShortcut
+//@   ensures def: result == isType(matcher, "shortcut")
